@@ -301,7 +301,7 @@ def oracle_c43(c):
             reg = m[0] == 11
         P, C = g["P"], g["C"]
         if P["demand"] > max_sent:
-            if chunked and (taint or (reg and P["demand"] == P["cur"])):
+            if chunked and first_demand is None and (taint or (reg and P["demand"] == P["cur"])):
                 if not taint:
                     known = (KNOWN_C43_CHUNKED, "chunked flow: the registration delivered at step %d set demandUpTo to currentSeq=%d, the consumer controller never requested beyond %d" % (k, P["demand"], max_sent), k)
                 taint = True
@@ -314,7 +314,7 @@ def oracle_c43(c):
             if m[0] == 2:
                 q = m[3]
                 if q > max_sent:
-                    if chunked and taint and q <= P["demand"]:
+                    if chunked and taint and first_demand is None and q <= P["demand"]:
                         known = (KNOWN_C43_CHUNKED, "chunked flow: SequencedMessage seq %d sent after a re-registration lifted demandUpTo to currentSeq=%d; the consumer controller never requested beyond %d" % (q, P["demand"], max_sent), k)
                     else:
                         bad.append(("emit:beyond-requested", "SequencedMessage seq %d sent, highest request so far %d%s" %
